@@ -1319,6 +1319,94 @@ def gen_matrix_cases(rng, full):
     return cases
 
 
+def gen_sibling_case(rng):
+    """two subclasses of one base class that declares the DBusProperty attributes; each subclass brings its own
+    interfaces.  'divergent': the base's descriptors mean different declarations in the two subclasses."""
+    kind = rng.choice(['unnamed-divergent', 'named-divergent', 'same', 'own'])
+    s0, s1 = rng.choice(SIGS[:14]), rng.choice(SIGS[:14])
+    acc = lambda: rng.choice([(True, True), (True, False), (True, True)])
+    r0, w0 = acc()
+    r1, w1 = acc()
+    e0, e1 = rng.choice('tfi'), rng.choice('tfi')
+    if kind == 'unnamed-divergent':
+        base = [{'ifaces': [], 'descs': [['x', 'X', None]]}]
+        sibs = [{'ifaces': [{'name': 'org.one', 'props': [['X', s0, r0, w0, e0]]}], 'descs': []},
+                {'ifaces': [{'name': 'org.two', 'props': [['X', s1, r1, w1, e1]]}], 'descs': []}]
+    elif kind == 'named-divergent':
+        base = [{'ifaces': [], 'descs': [['x', 'X', 'org.one']]}]
+        sibs = [{'ifaces': [{'name': 'org.one', 'props': [['X', s0, r0, w0, e0]]}], 'descs': []},
+                {'ifaces': [{'name': 'org.one', 'props': [['X', s1, not r0 or r1, w1, e1]]}], 'descs': []}]
+        if sibs[0]['ifaces'][0]['props'] == sibs[1]['ifaces'][0]['props']:
+            kind = 'same'
+    elif kind == 'same':
+        f = {'name': 'org.one', 'props': [['X', s0, r0, w0, e0]]}
+        base = [{'ifaces': [], 'descs': [['x', 'X', rng.choice([None, 'org.one'])]]}]
+        sibs = [{'ifaces': [f], 'descs': []}, {'ifaces': [f], 'descs': []}]
+    else:
+        f = {'name': 'org.base', 'props': [['X', s0, r0, w0, e0]]}
+        base = [{'ifaces': [f], 'descs': [['x', 'X', rng.choice([None, 'org.base'])]]}]
+        sibs = [{'ifaces': [{'name': 'org.one', 'props': [['Y', s1, r1, w1, e1]]}], 'descs': [['y', 'Y', None]]},
+                {'ifaces': [{'name': 'org.two', 'props': [['Y', s0, r1, w1, e0]]}], 'descs': [['y', 'Y', 'org.two']]}]
+    ops = []
+    for o in (0, 1):
+        chain = [sibs[o]] + base
+        for a, i, p in decl_props(chain):
+            i2, q = resolve(chain, i, p)
+            if q is not None and rng.random() < 0.9:
+                ops.append(['assign', o, a, good_value(rng, q[1])])
+        ops.append(['export', o])
+    for _ in range(rng.randrange(4, 14)):
+        o = rng.randrange(2)
+        chain = [sibs[o]] + base
+        info = []
+        for a, i, p in decl_props(chain):
+            i2, q = resolve(chain, i, p)
+            if q is not None:
+                info.append((a, i2, p, q))
+        if not info:
+            continue
+        a, i, p, q = rng.choice(info)
+        r = rng.random()
+        if r < 0.3:
+            ops.append(['assign', o, a, good_value(rng, q[1])])
+        elif r < 0.6:
+            ops.append(['get', o, i, p])
+        elif r < 0.8:
+            ops.append(['getall', o, i])
+        else:
+            v = plain(good_value(rng, q[1]))
+            wt = wire_type_for(rng, v, prefer=q[1])
+            if wt:
+                ops.append(['set', o, i, p, v, wt])
+    return {'classes': base, 'siblings': sibs, 'nobj': 2, 'ops': ops, 'kind': kind}
+
+
+SIBLING_KEY = 'sibling-classes-share-descriptor'
+
+
+def run_oracle_stream(ctx, stream, cases, warm, seen):
+    for c in cases:
+        try:
+            res = run_oracle_only(c, warm)
+        except Exception as e:   # a crash of the implementation outside any reply path
+            res = dict(viol=[('implementation-raises', 'the implementation raised outside a reply: %r' % (e,), -1,
+                              type(e).__name__, 'no exception')], judged=True, nontrivial=False, stats={})
+        ctx.case(stream, sample=c, nontrivial=res['nontrivial'])
+        ctx.impl_trace()
+        for k, n in res['stats'].items():
+            ctx.stat('%s %s' % (stream, k), n)
+        ctx.stat('%s %s' % (stream, 'judged' if res['judged'] else 'not-judged'))
+        if 'kind' in c:
+            ctx.stat('%s kind=%s' % (stream, c['kind']))
+        for key, what, idx, observed, expected in res['viol']:
+            if c.get('kind', '').endswith('divergent'):
+                what = ('two subclasses share a DBusProperty declared on their common base; the descriptor and the '
+                        "base class's interface cache are bound once, with the interfaces of whichever instance "
+                        'came first, so the other subclass sees the wrong declaration (%s: %s)' % (key, what))
+                key = SIBLING_KEY
+            ctx.violation(key, what, inp=c, observed={'op_index': idx, 'observed': observed}, expected=expected)
+
+
 # =========================================================================== reporting
 def shrink(case, key, budget=120):
     """greedy removal of operations (then of the second instance) while the same violation key persists"""
@@ -1433,6 +1521,9 @@ def run(ctx):
     seen = set()
     corpus = [c for _, c in ctx.corpus()]
     corpus = [c.get('input', c) for c in corpus]
+    run_oracle_stream(ctx, 'sibling-classes', [c for c in corpus if 'siblings' in c], True, seen)
+    run_oracle_stream(ctx, 'lazy-binding', [c for c in corpus if c.get('unwarmed')], False, seen)
+    corpus = [c for c in corpus if 'siblings' not in c and not c.get('unwarmed')]
     if corpus:
         run_batch(ctx, 'collision-inheritance', corpus, seen)
     full = ctx.tier == 'thorough'
@@ -1451,8 +1542,25 @@ def run(ctx):
         nobj = ctx.rng.choice([1, 1, 2])
         cases.append({'classes': classes, 'nobj': nobj, 'ops': gen_ops(ctx.rng, classes, nobj, ctx.rng.randrange(3, 30))})
     run_batch(ctx, 'random-histories', cases, seen)
+    # ---- oracle-only streams (the model covers neither): assignments before any walk of the class caches
+    # (the normal "assign in __init__, then export" order), and sibling subclasses of a common base
+    n = ctx.scale(quick=250, thorough=3000)
+    cases = []
+    for _ in range(n):
+        classes = gen_decl_random(ctx.rng) if ctx.rng.random() < 0.6 else gen_decl_collision(ctx.rng)
+        nobj = ctx.rng.choice([1, 2])
+        cases.append({'classes': classes, 'nobj': nobj, 'unwarmed': True,
+                      'ops': gen_ops(ctx.rng, classes, nobj, ctx.rng.randrange(3, 16))})
+    run_oracle_stream(ctx, 'lazy-binding', cases, False, seen)
+    n = ctx.scale(quick=120, thorough=1500)
+    run_oracle_stream(ctx, 'sibling-classes', [gen_sibling_case(ctx.rng) for _ in range(n)], True, seen)
 
 
 def replay(ctx, data):
     case = data.get('input', data)
-    run_batch(ctx, 'collision-inheritance', [case], set())
+    if 'siblings' in case:
+        run_oracle_stream(ctx, 'sibling-classes', [case], True, set())
+    elif case.get('unwarmed'):
+        run_oracle_stream(ctx, 'lazy-binding', [case], False, set())
+    else:
+        run_batch(ctx, 'collision-inheritance', [case], set())
